@@ -1,4 +1,5 @@
 import KitModel.Queue
+import KitModel.Generated.C06
 /-!
 # Model of `events/queue/processor.go` (property C06): a labelled transition system
 
@@ -90,8 +91,21 @@ theorem Steps.reach {σ α : Type} {M : LTS σ α} {p : α → Prop} {s s' : σ}
 
 /-! ## the processor -/
 
-/-- `500 * time.Microsecond` in nanoseconds: items due within this margin run without a timer. -/
-def halfMs : Int := 500000
+/-- `500 * time.Microsecond` in nanoseconds: items due within this margin run without a timer.
+Regenerated from the source on every run (`KitModel/Generated/C06.lean`). -/
+def halfMs : Int := Kit.Generated.C06.runNowMarginNs
+
+/-- Which variant of the model the current source is, according to the regenerated facts: the
+repaired one iff the empty-queue exit releases the token under the lock and a losing `Close` waits. -/
+def sourceIsFixed : Bool :=
+  Kit.Generated.C06.emptyExitReleasesTokenUnderLock && Kit.Generated.C06.closeLoserWaits
+
+/-- Hook points (without the `queue.` prefix) at which the harness parks a goroutine and for which
+the driver knows the program counter of the model. -/
+def parkPoints : List String :=
+  ["loop.peeked", "loop.sawEmpty", "loop.beforeArm", "loop.parked", "loop.fired", "loop.reset",
+   "loop.exit", "execute.popped", "process.resetSent", "process.tokenTaken",
+   "enqueue.afterStoppedCheck", "close.afterCAS"]
 
 inductive Token where
   | free | loop | close
